@@ -14,7 +14,9 @@ import (
 	"strings"
 	"sync"
 	"sync/atomic"
+	"syscall"
 	"time"
+	"unsafe"
 
 	"github.com/ddddddO/gtree"
 	"github.com/fatih/color"
@@ -322,6 +324,22 @@ func (env *Env) run(c *Case) *Result {
 	case 2:
 		rdCloser = &faultReaderCloser{faultReader: rd}
 		rdI = rdCloser
+	case 3:
+		// the document as a *bytes.Reader (no faults, no accounting): a reader whose size the library could ask for
+		rdI = bytes.NewReader(c.Doc)
+	case 4:
+		// the document as an open regular file (an anonymous memory file: it is in no directory, hence in no snapshot)
+		name := []byte("doc\x00")
+		if fd, _, errno := syscall.Syscall(319 /* SYS_MEMFD_CREATE on amd64 */, uintptr(unsafe.Pointer(&name[0])), 0, 0); errno == 0 {
+			f := os.NewFile(fd, "doc")
+			f.Write(c.Doc)
+			f.Seek(0, io.SeekStart)
+			defer f.Close()
+			rdI = f
+		} else {
+			res.Infra = "memfd_create: " + errno.Error()
+			return res
+		}
 	}
 	var kept []*gtree.WalkerNode // nodes handed to the caller, read again after the walk has ended
 	call := func() (err error) {
